@@ -23,7 +23,7 @@ PROPS = {
         not_decided=["the string matching that recognises the directive text inside a comment (comment.lines().map(trim) — str iterators): assumed as has_ignore()/toggled()",
                      "format_multiline_table's loop (it toggles the ignore state per field and calls format_field) is under contract (unit table: field i is formatted under the context folded from the toggles of the i-1 fields before it); that a Skip decision for a field returns the field unchanged is format_field's contract; should_expand (string search for comments) is assumed"],
         assumptions=["Block::stmts_with_semicolon / with_stmts / Peekable::next/peek behave as sequences (class A/B)"]),
-    "C09": dict(units=["ctx", "block", "lib", "sort", "range"], bounded=[dict(kind="lib", witnesses="RANGE_SORT_WITNESSES"), dict(kind="lib", witnesses="RANGE_BLANK_WITNESSES"), dict(kind="range", kinds=["before", "blank-lines", "after", "panic", "error", "timeout"]), dict(kind="ignore", kinds=["ignored-changed"], case_contains="+range@")],
+    "C09": dict(units=["ctx", "block", "lib", "sort", "range"], bounded=[dict(kind="lib", witnesses="RANGE_SORT_WITNESSES"), dict(kind="lib", witnesses="RANGE_BLANK_WITNESSES"), dict(kind="range", kinds=["before", "blank-lines", "after", "panic", "error", "timeout"]), dict(kind="ignore", kinds=["ignored-changed"], case_contains="+range@"), dict(kind="cli", scenario="range_options")],
         explanation="should_format_node (real text) returns NotInRange iff start < range.start or end > range.end for all positions and bounds. "
                     "format_stmt / format_last_stmt: NotInRange => only nested blocks may change (stmt_block::*, assumed). format_block: an out-of-range "
                     "statement keeps its semicolon token and trailing trivia (pair pushed as returned), in the same position. "
@@ -163,7 +163,7 @@ PROPS = {
         assumptions=["leaf formatters return the same leaf (var_id, call_id, table_id, ... postconditions on stubs)",
                      "the trivia updaters (update_leading_trivia / update_trailing_trivia / update_trivia) are assumed interfaces in every unit but `trivia` (prelude/traits.rs); unit trivia verifies the real implementations for TokenReference, the blanket impls, Punctuated, ContainedSpan, BinOp, UnOp, Expression, Prefix, Suffix, Call, Index, MethodCall, FunctionArgs, FunctionBody, Parameter, If, Assignment, Return, Stmt, LastStmt "
                      "and proves the assumed clauses for TokenReference / ContainedSpan / BinOp from them; the implementations for Var, VarExpression, FunctionCall, TableConstructor, LocalAssignment, FunctionName and the Luau nodes stay assumed"]),
-    "C01": dict(units=["expr", "block", "lib", "tok", "table", "collapse", "bodies", "trivia"], bounded=[dict(kind="lib", witnesses="C01_BOUNDED"), dict(kind="corpus", kinds=["parse"]), dict(kind="inject", kinds=["parse"]), dict(kind="range", kinds=["parse"])],
+    "C01": dict(units=["expr", "block", "lib", "tok", "table", "collapse", "bodies", "trivia", "luau"], bounded=[dict(kind="lib", witnesses="C01_BOUNDED"), dict(kind="corpus", kinds=["parse"]), dict(kind="inject", kinds=["parse"]), dict(kind="range", kinds=["parse"])],
         explanation="(unit collapse: a function body / if guard is only written on one line — with `end` behind its statement — when no comment is found in it.) necessary conditions, each a mechanism the property names: (1) `- -x` guard on both layout paths, right-open expressions never freed under an operator (C05 contract); "
                     "(2) a long-bracket string is separated from `[` (format_index, format_field, is_brackets_string); (3) the statement separator is kept where the next statement starts with `(` "
                     "(format_block); (4) LINE SAFETY inside expressions (prelude/lines.rs): esafe(r) is a postcondition of format_expression, format_expression_internal, hang_binop_expression, "
@@ -171,6 +171,7 @@ PROPS = {
                     "formatted expression, whatever follows a token whose trailing trivia end with a line comment starts a new line; (5) format_code returns exactly the printed AST. "
                     "Bounded (labelled): witness programs for line comments outside expressions (arguments, parameters, for headers, callee/arguments, method calls) and the corpus sweep (re-parse).",
         not_decided=["whole-grammar printer correctness (the property as stated): no contract reaches it; every statement formatter would need the line-safety postcondition",
+                     "Luau types: the parentheses contracts of unit luau count for C01 as well (a union inside an intersection without its parentheses does not parse); only the arms and entry points listed under C02 are covered",
                      "line safety outside expressions: known NOT to hold on the current tree for comments behind header keywords (D30, known findings)"],
         assumptions=["line safety: the leaves of an expression (names, calls, tables, anonymous functions, literals, the type of an assertion) are assumed safe (leaf_safe / ta_safe postconditions on stubs); "
                      "format_binop/format_unop produce an operator that is open only if the source operator is; hang_binop produces an operator that starts a line and is closed; "
@@ -405,7 +406,7 @@ WITNESSES = {
     "C11.": C11_WITNESSES + D39_WITNESSES[:3], "C02.call_sugar": C11_WITNESSES[:5], "C03.args_conversion": [w('f( --[[c]] "x")\ng("y" --[[d]])\nh("z") -- e\nk( -- l\n{})\n', oracle="comments", call_parentheses="None")],
     "C01.is_brackets_string": BRACKET_WITNESSES, "C01.index_bracket_string": BRACKET_WITNESSES, "C01.bracket_string": BRACKET_WITNESSES,
     "C12.": SORT_WITNESSES + SORT_COMMENT_WITNESSES,
-    "C15.": [cli("config_search")], "C20.": [cli("option_carriers")],
+    "C09.range_options": [cli("range_options")], "C15.": [cli("config_search")], "C20.": [cli("option_carriers")],
     "C14.": [cli("write_only_formatted_text"), cli("check_never_writes")], "C13.": [cli("check_never_writes")], "C17.": [cli("stdin_stdout_only")],
     "C18.": [cli("json_diff_reconstructs"), cli("unified_diff_reconstructs"), cli("check_never_writes")],
     "C01.output_is_printed_ast": LIB_WITNESSES, "C01.verified": LIB_WITNESSES, "C12.sort_iff_enabled": LIB_WITNESSES, "C02.whole_ast": LIB_WITNESSES,
